@@ -80,3 +80,11 @@ pub fn factory_queuer(a: &Args) {
     let out = rt.block_on(fp::queuer_step(a.u64("sticky") == 1, &busy, &deque, a.usize("queued"), a.str("op")));
     println!("out={}", out.replace('=', "~"));
 }
+
+/// factory_stale qkey=<5|6>
+pub fn factory_stale(a: &Args) {
+    use ractor::factory::factoryimpl::verif_probe as fp;
+    let rt = tokio::runtime::Builder::new_current_thread().enable_time().build().unwrap();
+    let out = rt.block_on(fp::stale_report(a.u64("qkey")));
+    println!("out={}", out.replace('=', "~"));
+}
